@@ -57,6 +57,15 @@ def shapes(tier, masked_only=False):
                 ops.append("AEADINC %s ENC %d %s" % (alg, a, chunks))
                 ops.append("AEADINC %s DEC %d %s ok" % (alg, a, chunks))
                 ops.append("AEADINC %s DEC %d %s b%d" % (alg, a, chunks, (0, 7, 15)[len(ops) % 3]))
+    # key life cycles: ISAP init/save/load/free (the 80-byte image is secret), *_aead_reinit with every combination of given / NULL /
+    # own-field pointers (key and nonce contents secret); prf/prf_fixed/hmac/kmac/kdf *_reinit are inside PRFINC, HMAC, KMAC, KDF
+    for alg, rate in (("128", 8), ("128a", 16), ("80pq", 8)):
+        for a, m in ((0, 0), (1, 7), (8, 19)) + (((19, 8), (0, 40)) if thorough else ()):
+            ops.append("ISAPKEY %s %d %d" % (alg, a, m))
+        for nm in (0, 1, 2):
+            for km in (0, 1):
+                for a, m in ((0, 0), (rate + 1, 2 * rate + 3)):
+                    ops.append("AEADRE %s %d %d %d %d" % (alg, nm, km, a, m))
     for o in (0, 1, 16, 17, 35):
         for i in L(32):
             ops.append("PRF %d %d" % (o, i))
@@ -406,7 +415,8 @@ def run(res, tier, seed, replay=None):
         "distinct_nontrivial": stats["tainted_ops"],
         "rule": "layer 3: every keyed primitive x public shapes (AD/message/chunk lengths 0,1,rate-1,rate,rate+1,2*rate+3; both verification outcomes with the tag "
                 "damaged at byte 0/7/15; one-shot, in-place and incremental; masked AEAD, SIV, ISAP x3; PRF/MAC/verify, HMAC key lengths 0..100, KMAC, KDF, HKDF, PBKDF2 "
-                "count 0..3, PRNG init/fetch/feed/reseed/save/load) under memcheck with all secrets undefined, on the Release -O3 static library of each configuration; "
+                "count 0..3, PRNG init/fetch/feed/reseed/save/load; key life cycles: ISAP init/save_key/load_key/free with the saved image secret, *_aead_reinit with key and nonce "
+                "given / NULL / own field, prf / prf_fixed / hmac / kmac / kdf *_reinit under a second secret key) under memcheck with all secrets undefined, on the Release -O3 static library of each configuration; "
                 "distinct_nontrivial = operations whose published outputs still carried secret taint (the poisoning reached the output)",
         "samples": shapes("quick")[:2] + shapes("quick")[-2:],
         "per_config": per_cfg,
